@@ -106,6 +106,10 @@ class Model:
         self.repo = Path(repo)
         self.overrides = overrides or {}
         self._mods: dict[str, Module] = {}
+        # the sources of one Model never change: hierarchy / existence queries are memoised (interpreting rules ask them per call)
+        self._mro_cache: dict = {}
+        self._method_cache: dict = {}
+        self._exists_cache: dict = {}
 
     # -- modules ---------------------------------------------------------------------------------
     def source(self, rel: str) -> str:
@@ -122,7 +126,10 @@ class Model:
         return self._mods[rel]
 
     def exists(self, rel: str) -> bool:
-        return rel in self.overrides or (self.repo / rel).exists()
+        r = self._exists_cache.get(rel)
+        if r is None:
+            r = self._exists_cache[rel] = rel in self.overrides or (self.repo / rel).exists()
+        return r
 
     def all_modules(self, sub: str = "mitmproxy", exclude=("mitmproxy/contrib/",)) -> list[Module]:
         out = []
@@ -218,6 +225,9 @@ class Model:
     def mro(self, rel: str, qual: str) -> list[tuple[Module, ast.ClassDef]]:
         """Linearised ancestry (depth-first, left to right, duplicates removed keeping the last
         occurrence - adequate for the single-inheritance + mixin hierarchies of the repository)."""
+        hit = self._mro_cache.get((rel, qual))
+        if hit is not None:
+            return list(hit)
         mod = self.module(rel)
         start = self.cls(rel, qual)
         order: list[tuple[Module, ast.ClassDef]] = []
@@ -238,6 +248,7 @@ class Model:
         out.reverse()
         # a class must precede its bases: the simple scheme above already guarantees it for trees;
         # for diamonds the shared base is moved to its last position, which is the C3 result.
+        self._mro_cache[(rel, qual)] = tuple(out)
         return out
 
     def base_names(self, rel: str, qual: str) -> list[str]:
@@ -252,11 +263,19 @@ class Model:
 
     def method(self, rel: str, cls_qual: str, name: str):
         """Resolve ``name`` along the MRO. Returns (Module, FunctionDef) or None."""
+        k = (rel, cls_qual, name)
+        if k in self._method_cache:
+            return self._method_cache[k]
+        res = None
         for m, c in self.mro(rel, cls_qual):
             for st in c.body:
                 if isinstance(st, (ast.FunctionDef, ast.AsyncFunctionDef)) and st.name == name:
-                    return m, st
-        return None
+                    res = (m, st)
+                    break
+            if res is not None:
+                break
+        self._method_cache[k] = res
+        return res
 
     def subclasses(self, base_name: str, sub: str = "mitmproxy"):
         """All classes in the package having a class called ``base_name`` among their ancestors."""
